@@ -172,6 +172,10 @@ def _part2(ck, prog):
                     prov.origin(g, n, c.args[0]) if c.args else prov.origin(g, n, c.func.value))
                 if t[0] == "call" and t[1][0] == "attr" and t[1][2] == "join":
                     dec_after.append((n, c, t))
+                elif t[0] == "call" and len(t[2]) == 1 and t[2][0][0] == "call" and t[2][0][1][0] == "attr" and t[2][0][1][2] == "join":
+                    # the joined bytes passed through one more call first (undoing a Content-Encoding on the whole body): still one
+                    # text decoding of the whole
+                    dec_after.append((n, c, t[2][0]))
     ck.require(len(dec_after) == 1, "C17.3", "%s: one decode of the joined bytes" % q.fn(fp), "from_bytes(b''.join(chunks))",
                "the body is not decoded exactly once from the joined reads", q.loc(fp, loop))
     # the loop leaves on an empty read
@@ -215,7 +219,8 @@ def _part2(ck, prog):
     dec_w += [x for x in wr if isinstance(x, ast.Assign) and isinstance(x.value, ast.BinOp) and isinstance(x.value.op, ast.Sub) and
               dump(x.value.left) == cvar and dump(x.value.right) == "len(%s)" % rv and any(sub is x for sub in ast.walk(loop))]
     other_w = [x for x in wr if x not in init_w and x not in dec_w]
-    ck.require(len(init_w) == 1 and len(dec_w) == 1 and not other_w, "C17.3", "%s: remaining size = Content-Length minus the bytes read" % q.fn(fp),
+    # (the initial value may be bound in the arms of a validation of the header - each arm from the header, none inside the loop)
+    ck.require(len(init_w) >= 1 and len(dec_w) == 1 and not other_w, "C17.3", "%s: remaining size = Content-Length minus the bytes read" % q.fn(fp),
                "`%s -= len(%s)` only" % (cvar, rv),
                "the remaining size `%s` is also changed by `%s`: the loop no longer accounts for what the reads actually returned"
                % (cvar, dump(other_w[0])[:50] if other_w else "nothing (no decrement by the length read)"), q.loc(fp, other_w[0] if other_w else loop))
